@@ -13,6 +13,7 @@ import (
 	"sort"
 	"strconv"
 	"strings"
+	"sync"
 
 	"golang.org/x/mod/module"
 	modzip "golang.org/x/mod/zip"
@@ -130,7 +131,8 @@ func treeCase(scratch string, id int, paths []string, goMod string) (msg string,
 	sort.Strings(names)
 	for _, n := range names {
 		b, _ := os.ReadFile(filepath.Join(root, filepath.FromSlash(n)))
-		files = append(files, memfile.File{P: n, Data: b, Declared: -1})
+		// the list side delivers its content in another reader shape for every tree
+		files = append(files, memfile.File{P: n, Data: b, Declared: -1, Shape: id % memfile.Shapes})
 	}
 	mv := module.Version{Path: "example.com/m", Version: "v1.0.0"}
 	var bd, bl bytes.Buffer
@@ -289,6 +291,40 @@ func Run(r *fw.Run) {
 		jobs = append(jobs, job{[]string{n}}, job{[]string{"N", n}})
 	}
 	r.Bounds["base_lists"] = len(jobs)
+	// dense length sweep: a file name of every length 0..enum.DenseMax (one long element, or many short ones),
+	// all regular, list side only (such names cannot exist in a directory)
+	{
+		var mu sync.Mutex
+		r.Bounds["dense_length_sweep"] = fmt.Sprintf("file names of every length up to %d", enum.DenseMax)
+		fw.Parallel(16, func(sh int) {
+			l := fw.NewLocal()
+			defer r.Merge(l)
+			enum.EachLength('n', enum.DenseMax, func(f string) {
+				if len(f)%16 != sh {
+					return
+				}
+				cands := [][]string{{"go.mod", "a/" + f + ".go"}}
+				if len(f) <= 1200 {
+					cands = append(cands, []string{strings.ReplaceAll(f, "nnnnnnnn", "nnnnnnn/") + "x.go"}) // up to 150 elements
+				}
+				for _, paths := range cands {
+					l.States++
+					l.Execs++
+					l.Transitions++
+					modes := make([]zipref.Mode, len(paths))
+					msg, _, _ := listCase(paths, modes, zipx.GoMods[0])
+					if msg != "" {
+						mu.Lock()
+						c := caseT{Kind: "list", Paths: q(paths), Modes: modesInt(modes), GoMod: strconv.QuoteToASCII(zipx.GoMods[0])}
+						r.Violation(fmt.Sprintf("list:dense:%d:%d", len(paths), len(f)), msg, c)
+						mu.Unlock()
+					} else {
+						l.Nontrivial++
+					}
+				}
+			})
+		})
+	}
 	allModes := []zipref.Mode{zipref.Symlink, zipref.Dir, zipref.Irregular}
 	fw.Parallel(16, func(sh int) {
 		l := fw.NewLocal()
